@@ -177,7 +177,8 @@ func (Engine) Execute(t *testing.T, cfg simkit.RunConfig, scenario any) *simkit.
 			case <-allDone:
 				break waitActors
 			case <-time.After(30 * time.Second):
-				if sc.Knobs.Latches == 0 || !w.Net.Quiet(5*time.Minute) {
+				// (a run that ran out of its event budget is cut off from everything: silence then proves nothing)
+				if sc.Knobs.Latches == 0 || s.Aborted != "" || !w.Net.Quiet(5*time.Minute) {
 					continue
 				}
 				for _, h := range w.Hist {
@@ -275,6 +276,9 @@ func (Engine) Execute(t *testing.T, cfg simkit.RunConfig, scenario any) *simkit.
 			sig = "riter-unbounded-upper " + sig
 		}
 		vs = append(vs, simkit.Violation{Property: "C01", Class: "backend-panic", Sig: sig, Detail: p})
+	}
+	if s.Aborted != "" {
+		stuck = nil
 	}
 	for _, id := range stuck {
 		vs = append(vs, simkit.Violation{Property: "C17", Class: "lock-never-returns", Sig: fmt.Sprintf("txn%d", id), Detail: fmt.Sprintf("txn %d is still inside Commit although no request is in flight and none was sent for five simulated minutes: it is blocked in the local latch scheduler, whose other users have all ended (a holder did not give its latches back, or a wake-up was lost); latch slots: %d; history: %s", id, sc.Knobs.Latches, strings.Join(histLines(w.Hist), " | "))})
